@@ -9,8 +9,9 @@ LEAN_MODULES = ["B2Z.Props.C11"]
 THEOREMS = [
     "B2Z.C11_encode_partitions", "B2Z.C11_plink_slices", "B2Z.genPartitionsE_none_iff",
     "B2Z.C11_disjoint", "B2Z.C11_cover", "B2Z.C11_chunks_disjoint", "B2Z.chunkAlignedSlices_eq",
-    "B2Z.C11_balanced", "B2Z.C11_balanced_antitone", "B2Z.C11_count_exact",
+    "B2Z.C11_balanced", "B2Z.C11_balanced_antitone", "B2Z.C11_count_exact", "B2Z.C11_bridge_pieces", "B2Z.C11_bridge_encode",
 ]
+GEN_DEPENDS = ["Partitions."]
 ASSUMPTIONS = [
     "int(np.ceil(n / c)) is float division in the code: exact for n < 2^53 (pen-and-paper; the theorem is over Nat)",
     "np.array_split(np.arange(k), s) boundaries = i*(k//s) + min(i, k%s): validated by the correspondence on every run",
